@@ -211,6 +211,39 @@ def run(ctx):
                   f"cost function {v} uses only the cost constants of {paths[0].split('::')[-1]}", site=f.where(sb),
                   detail={"op_unknown": sorted(cost_consts), "not in sibling": sorted(cost_consts - theirs)})
 
+    # the add-like function's size model: the running operand size that is charged as max(acc, len) must be carried on as exactly
+    # that maximum (the documented model: acc = max(acc, len)); an accumulator that is overwritten with the last length
+    # undercharges every later, shorter argument.  The accumulator is found by role: a local that is an operand of a max() whose
+    # result is charged, and that is reassigned inside the loop.
+    accs = {}
+    for b, t in f.calls():
+        if (t.get("callee") or "").endswith("Ord::max") and f.in_loop(b):
+            for a_ in t["args"]:
+                e_ = strip(f.expr_op(a_, deep=False))
+                # carried across iterations: initialised before the loop and reassigned inside it
+                if e_[0] in ("var", "named") and e_[2] > f.nargs and any(f.in_loop(d_[0]) for d_ in f.defs(e_[2])) \
+                        and any(not f.in_loop(d_[0]) for d_ in f.defs(e_[2])):
+                    accs.setdefault(e_[2], []).append(b)
+    ck.floor("size accumulators charged through max() in op_unknown", len(accs), 1)
+    for l, maxes in sorted(accs.items()):
+        bad = []
+        for d_ in f.defs(l):
+            if not f.in_loop(d_[0]):
+                continue
+            if d_[1] == "T":
+                t = f.term(d_[0])
+                okd = (t.get("callee") or "").endswith("Ord::max") and any(
+                    strip(f.expr_op(a_, deep=False))[0] in ("var", "named") and strip(f.expr_op(a_, deep=False))[2] == l for a_ in t["args"])
+            else:
+                e_ = strip(f.expr_rvalue(f.def_rvalue(d_), deep=False))
+                okd = (e_[0] in ("bin", "chk") and e_[1].startswith("Add") and any(strip(x)[0] in ("var", "named") and strip(x)[2] == l for x in e_[2:4])) or \
+                    (e_[0] == "call" and e_[1].endswith("Ord::max") and any(strip(x)[0] in ("var", "named") and strip(x)[2] == l for x in e_[2]))
+            if not okd:
+                bad.append(f.where(d_[0], f.stmts(d_[0])[d_[1]]["ln"]) if d_[1] != "T" else f.where(d_[0]))
+        ck.ob("R09c", F + f"|size accumulator #{sorted(accs).index(l)}", not bad,
+              "a running operand size that is charged through max(acc, len) is updated to max(acc, ..) (or grows by addition), never overwritten",
+              site=f.where(maxes[0]), detail={"overwritten at": bad})
+
     # R09d routing
     allowed = {"chia_dialect::unknown_operator", "<runtime_dialect::RuntimeDialect as dialect::Dialect>::op"}
     callers = [(g, b) for g, b in cr.callers_of(F) if not is_test_fn(g) and g.path != "more_ops::test_op_unknown"]
@@ -227,7 +260,7 @@ def run(ctx):
         ck.ob("R09d", f"{g.path} -> op_unknown", g.path in allowed and inreg and plain,
               "op_unknown is called only from an unknown-operator path, only when NO_UNKNOWN_OPS is clear, with its arguments forwarded unchanged",
               site=g.where(b), detail={"args": args, "under NO_UNKNOWN_OPS-clear": inreg})
-    ck.floor("callers of op_unknown", len(callers), 2)
+    ck.floor("callers of op_unknown", len(callers), 1)
     # ChiaDialect::op reaches unknown ops only through unknown_operator, forwarding its arguments
     d = cr.fn("<chia_dialect::ChiaDialect as dialect::Dialect>::op")
     ck.analysed(d)
